@@ -73,7 +73,7 @@ impl<'a> From<&'a ChildParentData> for ChildRenderContext<'a> {
 }
 
 struct FieldContainer<'a> {
-    gr_idx: usize,
+    key: Vec<usize>,
     path: String,
     field_data: FieldData<'a>
 }
@@ -269,17 +269,29 @@ fn struct_init_block<'a>(input: &'a Struct, ctx: &ImplContext) -> TokenStream {
         return TokenStream::new();
     }
 
+    // Every field gets a sort key made of the first-appearance indexes of each prefix of its path (so that all members
+    // of a nested struct, and of its own nested structs, end up next to each other however they are interleaved in
+    // the flat struct), followed by the first-appearance index of the direct members of that exact path.
     let mut group_paths = HashMap::<String, usize>::new();
     group_paths.insert("".into(), 0);
+    group_paths.insert("#".into(), 1);
 
     let mut make_tuple = |path: String, field_data: FieldData<'a>| {
-        if group_paths.contains_key(&path) {
-            let gr_idx = *group_paths.get(&path).unwrap();
-            (FieldContainer { gr_idx, path, field_data }, false)
-        } else {
-            group_paths.insert(path.clone(), group_paths.len());
-            (FieldContainer { gr_idx: group_paths.len() - 1, path, field_data}, true)
+        let mut key = vec![];
+        let mut prefix = String::new();
+        for segment in path.split('.').filter(|x| !x.is_empty()) {
+            if !prefix.is_empty() {
+                prefix.push('.');
+            }
+            prefix.push_str(segment);
+            let next = group_paths.len();
+            key.push(*group_paths.entry(prefix.clone()).or_insert(next));
         }
+        let exact = format!("{}#", path);
+        let is_new = !group_paths.contains_key(&exact);
+        let next = group_paths.len();
+        key.push(*group_paths.entry(exact).or_insert(next));
+        (FieldContainer { key, path, field_data }, is_new)
     };
 
     let mut fields: Vec<FieldContainer> = vec![];
@@ -302,7 +314,7 @@ fn struct_init_block<'a>(input: &'a Struct, ctx: &ImplContext) -> TokenStream {
             res.1.then_some(res.0)
         }));
 
-    fields.sort_by(|a, b| a.gr_idx.cmp(&b.gr_idx));
+    fields.sort_by(|a, b| a.key.cmp(&b.key));
 
     struct_init_block_inner(&mut fields.iter().peekable(), input.named_fields, ctx, None)
 }
